@@ -331,9 +331,274 @@ def zl(xs):
     return lst(list(xs), zraw)
 
 
+def ncomp_plain(m):
+    """number of connected components by a plain traversal of the adjacency dicts (no cached property of the library)"""
+    seen, k = set(), 0
+    for s in m._atoms:
+        if s in seen:
+            continue
+        k += 1
+        stack = [s]
+        seen.add(s)
+        while stack:
+            n = stack.pop()
+            for x in m._bonds[n]:
+                if x not in seen:
+                    seen.add(x)
+                    stack.append(x)
+    return k
+
+
 def fmol_of(m, spec):
+    """what a molecule contributes to the writer model; the component count is recomputed from the plain dicts, so that a stale
+    connected_components cache of the library shows up as a disagreement between the model and format(reaction)"""
     smi, order = m.__format__(spec, _return_order=True)
-    return smi, m.connected_components_count, [m.atom(n).is_radical for n in order]
+    return smi, ncomp_plain(m), [m.atom(n).is_radical for n in order]
+
+
+# ---------------------------------------------------------------------------------------------------------------
+# molecule objects with a HISTORY: used in a reaction (caches filled), then edited in place through the structural API
+# (which has to keep the molecule's caches right by itself), then put into a new reaction
+
+HISTORY_RINGS = ['C1CC1', 'C1CCC1', 'C1CCCC1', 'C1CCCCC1', 'c1ccccc1', 'C1CCOCC1', 'N1CCCCC1', 'c1ccncc1', 'C1CCCCCC1', 'c1ccoc1', 'C1CCNC1', 'c1ccsc1']
+
+
+class EditHistory:
+    pass
+
+
+def history_edit(p, rng, hint):
+    """one in-place edit through delete_bond / add_bond / delete_atom / add_atom (outside a transaction) or a charge change inside a
+    transaction; returns a replayable log entry or None"""
+    atoms = list(p)
+    if hint is not None and p.has_bond(*hint) and rng.random() < 0.6:
+        p.delete_bond(*hint)
+        return f'p.delete_bond({hint[0]}, {hint[1]})'
+    kind = rng.choice(['del', 'del', 'add', 'delatom', 'addatom', 'charge'])
+    if kind == 'del':
+        bs = [(n, m) for n, m, _ in p.bonds()]
+        if bs:
+            n, m = rng.choice(bs)
+            p.delete_bond(n, m)
+            return f'p.delete_bond({n}, {m})'
+    elif kind == 'add' and len(atoms) > 1:
+        n, m = rng.sample(atoms, 2)
+        if not p.has_bond(n, m):
+            p.add_bond(n, m, 1)
+            return f'p.add_bond({n}, {m}, 1)'
+    elif kind == 'delatom' and len(atoms) > 2:
+        n = rng.choice(atoms)
+        p.delete_atom(n)
+        return f'p.delete_atom({n})'
+    elif kind == 'addatom':
+        m = rng.choice(atoms)
+        n = p.add_atom('C')
+        p.add_bond(n, m, 1)
+        return f'p.add_bond(p.add_atom("C"), {m}, 1)'
+    elif kind == 'charge':
+        n = rng.choice(atoms)
+        with p:
+            p.atom(n).charge = 1
+        return f'with p:\n    p.atom({n}).charge = 1'
+    return None
+
+
+def gen_edit_histories(ck, n):
+    """reactant r (a corpus molecule, or two rings joined by one acyclic bond: every pair of a small ring catalogue, random attachment
+    atoms), product p = r.copy(); the identity reaction r >> p is evaluated (str, hash, condensed graph, components, rings: fills the
+    molecule-level caches); then p is edited IN PLACE 1-2 times; h.rxn = ReactionContainer([r], [p]) over the used objects,
+    h.ref = the same reaction over fresh copies (nothing cached)"""
+    from chython import smiles, ReactionContainer
+    rng = random.Random(f'{ck.seed}:c15:edit-history')
+    pool = corpus.sample(corpus.lipo(), 300, ck.seed, 'c15')
+    out = []
+    pairs = [(a, c) for a in HISTORY_RINGS for c in HISTORY_RINGS]
+    rng.shuffle(pairs)
+    for i in range(n):
+        hint = None
+        try:
+            if i % 5 < 2:
+                a, c = [smiles(x) for x in pairs[(i // 5 * 2 + i % 5) % len(pairs)]]
+                r = a | c
+                x, y = rng.choice(list(a)), rng.choice([k for k in r if k not in a._atoms])
+                r.add_bond(x, y, 1)
+                r = r.copy()
+                hint = (x, y)
+                family = 'two rings joined by an acyclic bond'
+            else:
+                r = smiles(rng.choice(pool))
+                family = 'corpus molecule'
+            p = r.copy()
+            start = format(r, 'm')
+            ident = ReactionContainer([r], [p])
+            str(ident), hash(ident), str(~ident), p.connected_components_count, p.sssr
+            log = [history_edit(p, rng, hint)]
+            if rng.random() < 0.3:
+                log.append(history_edit(p, rng, None))
+            log = [x for x in log if x]
+            if not log:
+                continue
+            h = EditHistory()
+            h.rxn, h.ref, h.p, h.log, h.start, h.family, h.idx = ReactionContainer([r], [p]), ReactionContainer([r.copy()], [p.copy()]), p, log, start, family, i
+            out.append(h)
+        except Exception as e:     # an edit the library refuses: not this property's business
+            ck.count('edit-history:skipped:' + type(e).__name__)
+    return out
+
+
+def search_edit_histories(ck, hist):
+    """the reaction over the used-and-edited objects must answer like the reaction over fresh copies: same string (roles, f: groups,
+    radicals), same condensed graph string, the product's component count = a plain traversal, and reading the string back restores
+    the role sizes"""
+    from chython import smiles
+    for h in hist:
+        try:
+            s, sref = str(h.rxn), str(h.ref)
+            c, cref = str(~h.rxn), str(~h.ref)
+            k, kref = h.p.connected_components_count, ncomp_plain(h.p)
+        except Exception as e:
+            ck.count('edit-history:raises ' + type(e).__name__)
+            continue
+        ck.case(('edit-history', h.idx, s), nontrivial=True)
+        ck.count(f'edit-history:{h.family}:' + ('product splits' if kref > 1 else 'product stays connected'))
+        rp = (REPLAY_HEAD + f"r = smiles({h.start!r})\np = r.copy()\nident = ReactionContainer([r], [p])\n"
+              "str(ident); hash(ident); str(~ident); p.connected_components_count; p.sssr\n" + '\n'.join(h.log) +
+              "\nprint(str(ReactionContainer([r], [p])))\nprint(str(ReactionContainer([r.copy()], [p.copy()])))\nprint(p.connected_components_count)")
+        if s != sref or k != kref:
+            ck.counterexample(f'edit-history-string:{h.idx}', 'a molecule that was used in a reaction and then edited in place (structural API) gives a reaction whose '
+                              'canonical string / CXSMILES fragment groups differ from the same reaction built from fresh copies (stale molecule-level cache)',
+                              {'reactant': h.start, 'edits of the product copy': h.log}, {'string': s, 'components of the product': k},
+                              {'string': sref, 'components of the product': kref}, 'the same reaction over fresh copies; plain traversal of the adjacency', replay_py=rp)
+            continue
+        if c != cref:
+            ck.counterexample(f'edit-history-cgr:{h.idx}', 'the condensed graph of a reaction over used-and-edited molecule objects differs from that over fresh copies',
+                              {'reactant': h.start, 'edits of the product copy': h.log}, c, cref, 'the same reaction over fresh copies', replay_py=rp)
+            continue
+        try:
+            back = smiles(s)
+            sizes = (len(back.reactants), len(back.reagents), len(back.products))
+        except Exception:
+            continue
+        if sizes != (1, 0, 1):
+            ck.counterexample(f'edit-history-roundtrip:{h.idx}', 'reading back the reaction SMILES does not restore the roles (one reactant, one product molecule)',
+                              {'reactant': h.start, 'edits of the product copy': h.log, 'string': s}, sizes, (1, 0, 1), 'role sizes of the written reaction', replay_py=rp)
+
+
+# symmetric polycyclic cages and bridged ring systems: atoms of one Morgan class reachable at different distances from the start atom
+CAGES = ['C1C2CC3CC1CC(C2)C3', 'C1N2CN3CN1CN(C2)C3', 'C12C3C4C1C5C2C3C45', 'C1CC2CCC1C2', 'C1CC2CCC1CC2', 'C1CN2CCC1CC2', 'C1CN2CCN1CC2',
+         'C1CC2CC1C1CCC21', 'C1C2CC3C1C3C2', 'C12C3C1C23', 'C1C2C3CC4C1C2C34', 'C1CCC2(CC1)CCCC2', 'C1CC2CCCC(C1)C2', 'NC12CC3CC(CC(C3)C1)C2', 'C1CC2CC1CC2',
+         'C1C2CC3CC2CC1C3', 'C1CC2C3CCC(C3)C2C1', 'C1C2CC3C4CC5CC(C14)C(C2)C3C5', 'C1CC2CC3CCC1C23', 'C1CC2CCC3CCC1C23']
+
+
+def bridged_ring(rng):
+    """a carbon ring of 5-9 atoms with 1-3 extra bridges (a bond or a chain of 1-2 new atoms between two ring atoms), degrees <= 4"""
+    from chython import MoleculeContainer
+    n = rng.randint(5, 9)
+    m = MoleculeContainer()
+    for i in range(1, n + 1):
+        m.add_atom('C', i)
+    deg = {i: 2 for i in range(1, n + 1)}
+    for i in range(1, n + 1):
+        m.add_bond(i, i % n + 1, 1)
+    nxt = n + 1
+    for _ in range(rng.randint(1, 3)):
+        cand = [i for i in deg if deg[i] < 4]
+        if len(cand) < 2:
+            break
+        a, c = rng.sample(cand, 2)
+        length = rng.randint(0, 2)
+        if length == 0:
+            if m.has_bond(a, c):
+                continue
+            m.add_bond(a, c, 1)
+            deg[a] += 1
+            deg[c] += 1
+        else:
+            prev = a
+            for _ in range(length):
+                m.add_atom('C', nxt)
+                deg[nxt] = 0
+                m.add_bond(prev, nxt, 1)
+                deg[prev] += 1
+                deg[nxt] += 1
+                prev = nxt
+                nxt += 1
+            m.add_bond(prev, c, 1)
+            deg[prev] += 1
+            deg[c] += 1
+    return m
+
+
+def cage_reactions(ck):
+    """(token, reactant, product): every cage with identical sides and with one atom (three choices) turned into N / N+ (a protonation:
+    exactly one dynamic atom, no dynamic bond); random bridged rings with a random one of these edits"""
+    from chython import smiles, MoleculeContainer
+    rng = random.Random(f'{ck.seed}:c15:cages')
+
+    def protonation(r, a):
+        out = []
+        for ch in (0, 1):
+            mm = MoleculeContainer()
+            for n, at in r.atoms():
+                mm.add_atom('N' if n == a else at.atomic_symbol, n)
+            for n, m_, bd in r.bonds():
+                mm.add_bond(n, m_, int(bd))
+            if ch:
+                with mm:
+                    mm.atom(a).charge = 1
+            out.append(mm)
+        return out
+    out = []
+    skeletons = [(('cage', s), smiles(s)) for s in CAGES]
+    skeletons += [(('bridged ring', i), bridged_ring(rng)) for i in range(40 if ck.tier == 'quick' else 400)]
+    for tok, r in skeletons:
+        atoms = list(r)
+        picks = rng.sample(atoms, min(3, len(atoms))) if tok[0] == 'cage' else [rng.choice(atoms)]
+        if tok[0] == 'cage' or rng.random() < 0.4:
+            out.append((tok + ('identical sides',), r, r.copy()))
+        for a in picks:
+            if len(r._bonds[a]) <= 3:
+                try:
+                    x, y = protonation(r, a)
+                    out.append((tok + ('protonation', a), x, y))
+                except Exception as e:
+                    ck.count('cages:skipped:' + type(e).__name__)
+    return out
+
+
+def search_cages(ck):
+    """str(r ^ p) of a cage / bridged ring system is one string over consistent renumberings of both sides, and the centre is the edited atom"""
+    rng = random.Random(f'{ck.seed}:c15:cages:renumber')
+    for tok, r, p in cage_reactions(ck):
+        atoms = list(r)
+        seen = {}
+        try:
+            h = r ^ p
+            seen[str(h)] = {n: n for n in atoms}
+            centre = set(h.center_atoms)
+            for _ in range(8 if ck.tier == 'quick' else 30):
+                perm = atoms[:]
+                rng.shuffle(perm)
+                mp = dict(zip(atoms, perm))
+                rr, pp = r.copy(), p.copy()
+                rr.remap(mp)
+                pp.remap(mp)
+                seen.setdefault(str(rr ^ pp), mp)
+        except Exception as e:
+            ck.count('cages:raises ' + type(e).__name__)
+            continue
+        ck.case(('cage',) + tok, nontrivial=True)
+        ck.count(f'search:{tok[0]}:{tok[2]}')
+        want = {tok[3]} if tok[2] == 'protonation' else set()
+        rs, ps = format(r, 'm'), format(p, 'm')
+        if centre != want:
+            ck.counterexample(f'cage-centre:{tok}', 'the reaction centre of a cage reaction is not the edited atom', {'reactant': rs, 'product': ps}, sorted(centre), sorted(want),
+                              'ground truth of the edit', replay_py=f"from chython import smiles\nprint((smiles({rs!r}) ^ smiles({ps!r})).center_atoms)")
+        if len(seen) > 1:
+            (s1, m1), (s2, m2) = list(seen.items())[:2]
+            ck.counterexample(f'cgr-renumber-string:cage:{tok}', 'the canonical string of the condensed graph of a polycyclic cage / bridged ring system depends on the '
+                              '(consistent) numbering of the sides', {'reactant': rs, 'product': ps, 'renumbering': m2}, s2, s1, 'the same reaction, both sides renumbered by one map',
+                              replay_py=("from chython import smiles\n" f"r, p = smiles({rs!r}), smiles({ps!r})\nprint(str(r ^ p))\nm = {m2!r}\nr.remap(m); p.remap(m)\nprint(str(r ^ p))"))
 
 
 def fmol_term(f):
@@ -621,6 +886,9 @@ def search_identity(ck, pool, n):
         ck.count('search:identity')
 
 
+HISTORIES = [[]]
+
+
 def search(ck, rxns):
     rng = random.Random(f'{ck.seed}:c15:search')
     for x in rxns:
@@ -630,6 +898,8 @@ def search(ck, rxns):
     search_identity(ck, corpus.sample(corpus.lipo(), 400, ck.seed, 'c15'), 60 if ck.tier == 'quick' else 400)
     search_directed(ck)
     search_symmetric_rings(ck)
+    search_cages(ck)
+    search_edit_histories(ck, HISTORIES[0])
 
 
 def search_directed(ck):
@@ -1130,6 +1400,20 @@ def corr_writer(ck, rxns):
         cases.append(f'fmt1_ok {b("!c" in sp)} {b("!x" in sp)} {ft2[0]} {ft2[1]} {ft2[2]} {cstr(e2)}')
         meta.append(('fmt1', x.desc['idx'], x, sp))
         ck.case(('fmt1', sp, e2), nontrivial=True)
+    # reactions over molecule objects with a history (used, then edited in place): the writer model fed with the molecule strings and the
+    # component counts recomputed from the plain dicts must give format() of the reaction over these objects
+    for h in HISTORIES[0][:60 if ck.tier == 'quick' else 600]:
+        try:
+            fm = [[fmol_of(m, '') for m in role] for role in (h.rxn.reactants, h.rxn.reagents, h.rxn.products)]
+            exp = [format(h.rxn, sp) for sp in ('', '!c', '!x', '!c!x')]
+        except Exception as e:
+            ck.count('writer:history:raises ' + type(e).__name__)
+            continue
+        ft = [lst([fmol_term(f) for f in role]) for role in fm]
+        cases.append(f'fmt_ok {ft[0]} {ft[1]} {ft[2]} {cstr(exp[0])} {cstr(exp[1])} {cstr(exp[2])} {cstr(exp[3])}')
+        meta.append(('fmt-history', h.idx, None))
+        ck.case(('fmt-history', h.idx, exp[0]), nontrivial=True)
+        ck.count('writer:molecule objects with an edit history')
     # __eq__ / __hash__: a reaction against a role-internal rearrangement of itself, and against the next reaction
     from chython import ReactionContainer
     eq_pairs = []
@@ -1498,6 +1782,11 @@ def corr_morgan(ck, rxns):
     for a, c in (('CCO', 'C=C[O-]'), ('C', 'C'), ('C', '[CH3] |^1:0|'), ('[13CH4]', '[13CH3-]'), ('c1ccccc1', 'C1=CC=CC=C1'), ('CC', 'C.C'), ('O', 'OC'),
                  ('C[Fe+4]', 'C[Fe-4]'), ('C~C', 'CC')):
         graphs.append((('pair', a, c), smiles(a) ^ smiles(c)))
+    for tok, r, p in cage_reactions(ck)[:45 if ck.tier == 'quick' else 400]:      # polycyclic cages, bridged rings (tied ranks, unequal distances)
+        try:
+            graphs.append((('cage',) + tuple(str(x) for x in tok), r ^ p))
+        except Exception:
+            continue
     graphs.append((('pair', 'empty', 'empty'), MoleculeContainer() ^ MoleculeContainer()))
     graphs.append((('pair', 'empty', 'C'), MoleculeContainer() ^ smiles('C')))
     for tok, h in graphs:
@@ -1806,6 +2095,8 @@ def run(ck):
     n = 300 if ck.tier == 'quick' else 1000
     rxns = timed('generate', gen_reactions, ck, n)
     ck.extra['reactions'] = len(rxns)
+    HISTORIES[0] = timed('generate edit histories', gen_edit_histories, ck, 150 if ck.tier == 'quick' else 1500)
+    ck.extra['edit_histories'] = len(HISTORIES[0])
     tied = timed('corr compose', corr_compose, ck, rxns)
     tied = timed('corr writer', corr_writer, ck, rxns) and tied
     tied = timed('corr reader', corr_reader, ck, rxns) and tied
